@@ -304,6 +304,15 @@ func genField(rng *rand.Rand, sb *strings.Builder, class string, s, f int, gener
 	if class == "G4" || class == "G1" || rng.Intn(2) == 0 {
 		prefix = zhComments[rng.Intn(len(zhComments))] + " "
 	}
+	if (class == "G3" || class == "G4" || class == "G6") && rng.Intn(5) == 0 {
+		// prose in front of the marker that itself looks like a pair (an old name, an example): only what follows
+		// the marker is an annotation
+		k := "json"
+		if len(existing) > 0 && rng.Intn(2) == 0 {
+			k = existing[rng.Intn(len(existing))].K
+		}
+		prefix = []string{"v1 里是 ", "was ", "e.g. ", "旧: "}[rng.Intn(4)] + k + `:"old_name" ` + prefix
+	}
 	trail := ""
 	switch rng.Intn(12) {
 	case 0, 1:
